@@ -117,6 +117,7 @@ type Interp struct {
 	timeTexts []*timeEntry
 	numSeq    int
 	lastDec   []*Term
+	narrowBack map[int]*Term
 	hangBound int // >0: a loop iterating more often (outside harness files) is a violation
 	cross     *Solver // secondary solver for cross-checking unsat verdicts
 	rng       map[int]urange // unsigned bounds of variables implied by the path condition
